@@ -141,6 +141,8 @@ def compare_lxml(model, impl, args):
 
 
 # ----------------------------------------------------------------- generators
+from props import c03_oracle as _O  # noqa: E402,F401  (must be imported before c03_models)
+from props import c03_models  # noqa: E402
 from props.c03_gen import (  # noqa: E402
     gen_clean,
     gen_escape,
@@ -164,6 +166,9 @@ CORRS = [
          describe="LxmlEventWriter output infoset vs tree of the model's SAX calls"),
     Corr("writer.events_tree", gen_events_tree, impl_events_tree, classify=lambda a, o: "tree" if o["ok"] is not None else "outside-fragment", canon=lambda o: {"ok": sort_attrs(o["ok"])} if isinstance(o, dict) and "ok" in o else o,
          describe="Lean eventsTree vs the harness's own reading of the events"),
+    Corr("ser.object", c03_models.gen_ser_object, c03_models.impl_ser_object, canon=c03_models.canon_ser_object,
+         classify=lambda a, o: "ok:depth%d" % c03_models.depth(a["model"]) if "ok" in o else "err:" + str(o.get("err")),
+         describe="XmlSerializer.render of dataclasses built from a declarative model (both writers) vs Lean Spec.ObjectTree.specRoot"),
     Corr("ns.clean", gen_clean, impl_clean, describe="clean_prefixes"),
     Corr("ns.split_qname", gen_split, impl_split, describe="split_qname"),
     Corr("ns.load_prefix", gen_prefix, impl_load_prefix, describe="load_prefix"),
@@ -173,7 +178,6 @@ CORRS = [
 ]
 
 from props.c03_oracle import FINDINGS, ORACLES as _EVENT_ORACLES  # noqa: E402,F401
-from props import c03_models  # noqa: E402
 
 ORACLES = list(_EVENT_ORACLES) + [c03_models.ORACLE]
 
